@@ -87,7 +87,7 @@ pub fn layout_of(src: &str, lib: bool) -> Option<(String, crate::util::layout::L
     let r = api::parse_simple(src, lib, false).ok()?.ok()?;
     let (t, _) = r;
     let ix = tree::index(&t).ok()?;
-    let text = t.get_str(vec![ix.nodes[0].node.clone()]).unwrap_or("").to_string();
+    let text = tree::text_from_leaves(&t, &ix)?;
     let lay = layout(&ix, text.len());
     Some((text, lay))
 }
